@@ -345,6 +345,25 @@ Theorem C01_list : forall a, canonical a = true -> norm (VL [a]) = VL [a] ->
 Proof. exact list_holds. Qed.
 Print Assumptions C01_list.
 
+(* Group: the model follows the pairwise Match loop of eval_monad_groupby (np.unique with first indices for strings and
+   numeric vectors); the result is one group per member that matches no earlier member, in order of first appearance,
+   each listing the positions of the members that match it — for strings, vectors, mixed and nested lists on which Match
+   settles the kinds, has no near-equal reals and is an equivalence (decidable checks in dom_monad) *)
+Theorem C01_group : forall a, canonical a = true -> dom_monad "eval_monad_groupby" a = true ->
+  m_monad "eval_monad_groupby" a = s_monad "eval_monad_groupby" a.
+Proof. exact (group_holds eq_refl eq_refl). Qed.
+Print Assumptions C01_group.
+(* ... and these groups are the classes of Match: every position lies in the group of a key, and two keys never match
+   (so, by transitivity, no position lies in two groups) *)
+Theorem C01_groups_partition : forall (E : val -> val -> bool) l,
+  (forall x, In x l -> E x x = true) ->
+  (forall x y, In x l -> In y l -> E x y = true -> E y x = true) ->
+  (forall x y z, In x l -> In y l -> In z l -> E x y = true -> E y z = true -> E x z = true) ->
+  (forall j, (j < List.length l)%nat -> exists k, In k (firsts E VU l) /\ In j (npos E k 0 l)) /\
+  sep E (firsts E VU l).
+Proof. exact groups_partition. Qed.
+Print Assumptions C01_groups_partition.
+
 (* the dispatch tables of create_monad_functions / create_dyad_functions are the ones the model was written
    against, every modelled verb is still dispatched, and Split / Reshape carry their fix: *)
 Theorem C01_all_modelled_verbs_present : check_tables = true.
